@@ -58,6 +58,18 @@ def judge(ctx, c, answers):
                 ctx.violation('tm-verdict-default-budget', {'case': dict(c, words=[w], budgets=[1000]), 'impl': g, 'expected': e})
     finally:
         GambaTools.pda_epsilon_closure_max_iterations = old_knob
+    # a word may be given as a list of symbols: same verdict, and the caller's list is not the tape
+    for w in c['words'][:3]:
+        lw = list(w)
+        g = call(tm_accepts_word, T, lw, 50)
+        e = oracles.tm_run(T, w, 50)[0]
+        if g != {'ok': e}:
+            ctx.violation('tm-verdict(list word)', {'case': dict(c, words=[w], budgets=[50]), 'impl': g, 'expected': e})
+        elif lw != list(w):
+            ctx.violation('argument-mutated', {'case': dict(c, words=[w], budgets=[50]), 'word_list_after': lw})
+        g = call(tm_simulate_word, T, lw, 50)
+        if lw != list(w):
+            ctx.violation('argument-mutated', {'case': dict(c, words=[w], budgets=[50]), 'word_list_after': lw, 'op': 'tm_simulate_word'})
     it = iter(answers)
     res = []
     for w in c['words']:
